@@ -16,6 +16,7 @@ var (
 	unionAttributePrefix     = "_*_"
 	unionAttributeTypePrefix = "_|_"
 	objectPrefix             = "_o_"
+	objectSuffix             = "_e_"
 	tagPrefix                = "+"
 	userTypeHashPrefix       = "!"
 	userTypePrefix           = "_t_"
@@ -30,7 +31,12 @@ var (
 //   - user types have the same attribute names and the attribute types have the same hash if ignoreFields is false
 //   - object attributes have the same "struct:field:xxx" tags if ignoreTags is false
 func Hash(dt DataType, ignoreFields, ignoreNames, ignoreTags bool) string {
-	return *hash(dt, ignoreFields, ignoreNames, ignoreTags, make(map[*Object]*string))
+	seen := make(map[*Object]*string)
+	if o, ok := dt.(*Object); ok {
+		// Nothing follows a top level object, no need to close it.
+		return *hashObject(o, ignoreFields, ignoreNames, ignoreTags, seen)
+	}
+	return *hash(dt, ignoreFields, ignoreNames, ignoreTags, seen)
 }
 
 func hash(dt DataType, ignoreFields, ignoreNames, ignoreTags bool, seen map[*Object]*string) *string {
@@ -50,7 +56,11 @@ func hash(dt DataType, ignoreFields, ignoreNames, ignoreTags bool, seen map[*Obj
 	case UserTypeKind, ResultTypeKind:
 		return hashUserType(dt.(UserType), ignoreFields, ignoreNames, ignoreTags, seen)
 	case ObjectKind:
-		return hashObject(dt.(*Object), ignoreFields, ignoreNames, ignoreTags, seen)
+		// Close nested objects so that whatever follows in the hash of the
+		// enclosing type is not mistaken for more of their attributes:
+		// {a:{x,y},z} and {a:{x},y,z} must not hash the same.
+		h := *hashObject(dt.(*Object), ignoreFields, ignoreNames, ignoreTags, seen) + objectSuffix
+		return &h
 	default:
 		panic(fmt.Sprintf("invalid type for hashing: %T", dt))
 	}
